@@ -503,6 +503,11 @@ fn run_encoder(case: &Case, attempts: NonZeroUsize) -> Result<(), String> {
             // error, a short read): the reader now has data; it must be called, and what it
             // delivers must be encoded.  (A source that was at end of file a moment ago may have
             // grown: a log being tailed.)
+            if (65..=300).contains(&case.count) {
+                // mid-size reads: the arena lets go of its current chunk right after the read, with no
+                // other allocation in between (the bytes read must be kept alive by the output alone)
+                enc.consumer().arena().flush_cache();
+            }
             let more: &[u8] = &[0x71, 0x72, 0x73];
             let mut reader2 = ScriptReader::new(&[Sym::D1, Sym::DAll], more);
             let got2 = enc.encode_read(&mut reader2, 3, NonZeroUsize::MAX);
@@ -512,6 +517,14 @@ fn run_encoder(case: &Case, attempts: NonZeroUsize) -> Result<(), String> {
                 (g, w) => return Err(format!("a second encode_read on the same encoder (the reader delivers 1 byte, then the rest) returned {:?} expected {:?}", g.as_ref().map_err(kind_of), w)),
             }
         }
+    }
+    if case.count >= 65 {
+        // the arena moves on to other chunks while the bytes that were read sit in the output
+        static TURN: [u8; 9000] = [0x74; 9000];
+        enc.encode_copy(&TURN[..5000]);
+        message.extend_from_slice(&TURN[..5000]);
+        enc.encode_copy(&TURN);
+        message.extend_from_slice(&TURN);
     }
     enc.encode(suffix);
     message.extend_from_slice(suffix);
@@ -685,6 +698,42 @@ fn run_script(rep: &mut Report, script: &[Sym]) {
 
 pub const LARGE_COUNTS: [usize; 6] = [64_008, 64_009, 64_010, 70_000, 128_016, 128_017];
 
+/// Counts in the size class between "always copied" (<= 64 bytes) and "always borrowed" (> 256): what
+/// was read lands in an arena chunk of its own when the current one is nearly full, and must survive
+/// the arena moving on to other chunks while it sits in the codec's output.
+fn explore_mid(ctx: &Ctx, rep: &mut Report, unit: &mut usize) {
+    let scripts: Vec<Vec<Sym>> = vec![vec![Sym::DAll], vec![Sym::D1, Sym::DAll], vec![Sym::Intr, Sym::DAll], vec![Sym::D2, Sym::Eof], vec![Sym::D1, Sym::ErrOther]];
+    for count in [65usize, 70, 100, 256, 257, 300] {
+        for script in &scripts {
+            let u = *unit;
+            *unit += 1;
+            if !ctx.owns(u) {
+                continue;
+            }
+            for arena in [ArenaState::FreshChunk, ArenaState::RemainingEqCount, ArenaState::RemainingCountMinus1, ArenaState::RemainingZero, ArenaState::NoCache] {
+                for entry in ENTRIES {
+                    let case = Case { script: script.clone(), count, attempts: usize::MAX, arena, entry };
+                    rep.evaluations += 1;
+                    rep.transitions += script.len() as u64 + 1;
+                    rep.count("mid_count_cases", 1);
+                    match run_case(&case) {
+                        Ok(()) => rep.nontrivial += 1,
+                        Err(e) if !relevant(&e) => rep.count("cases_failing_only_a_sibling_oracle", 1),
+                        Err(e) => {
+                            if run_case(&case).as_ref().err() != Some(&e) {
+                                machinery_failure(&format!("violation did not reproduce identically: {} / {}", case.render(), e));
+                            }
+                            let r = case.render();
+                            rep.violation(Violation { key: format!("C17:{}", r.replace(' ', ";")), summary: format!("read_n [{}]: {}", r, e), replay_text: format!("case: {}\nobserved: {}\n", r, e) });
+                        }
+                    }
+                }
+            }
+        }
+    }
+    rep.note("mid-size counts 65, 70, 100, 256, 257, 300 (between the always-copied and the always-borrowed size classes) x 5 scripts x 5 arena states x 5 entry points; after the read the encoder copies 14 000 more bytes (the arena moves on to other chunks) before the output is compared".to_string());
+}
+
 /// Counts beyond one HCOBS chunk (64008 bytes): every script over the large alphabet up to `max_len`.
 fn explore_large(ctx: &Ctx, rep: &mut Report, max_len: usize, unit: &mut usize) {
     let mut scripts: Vec<Vec<Sym>> = vec![vec![]];
@@ -787,6 +836,7 @@ fn run(ctx: &Ctx) -> Report {
     let mut unit = 0usize;
     explore_large(ctx, &mut rep, ctx.tier.pick(3, 4), &mut unit);
     explore_one_mib(ctx, &mut rep, &mut unit);
+    explore_mid(ctx, &mut rep, &mut unit);
     rep.max_depth = max_len as u64;
     rep.note(format!(
         "C17: all reader scripts over {{deliverAll, deliver1, deliver2, EINTR, EOF, ErrOther, ErrWouldBlock, ErrUnexpectedEof}} up to length {} (EOF forever afterwards) x counts {:?} x attempt limits {:?} x 5 arena states (ByteArena::read_n) / 2 arena states (Encoder/Decoder read_n, encode_read, decode_read)",
@@ -806,6 +856,8 @@ fn replay(_ctx: &Ctx, text: &str) -> Result<String, String> {
 }
 
 fn main() {
+    // a runaway execution must die alone (see mc_core::limit_address_space)
+    mc_core::limit_address_space(4 << 30);
     main_entry(Engine {
         name: "readn_mc",
         level: |_| "fault_enumeration",
